@@ -294,7 +294,7 @@ def _decide_group(check, ctx, oname, cname, label, rs, pc, claim, logic, timeout
             bad.append(f)
     sample = dict(obligation=oname, elements=n_el, nontrivial_elements=len(bad),
                   inputs=len(ctx.symbols), path_condition=[str(p)[:80] for p in pc][:4])
-    s = ctx.solver(logic, int(timeout_s * 1000))
+    s = ctx.solver(logic, int(timeout_s * 1000), focus=bad + pc)
     s.add(*pc)
     s.add(z3.Or(*bad) if len(bad) > 1 else bad[0])
     t = time.perf_counter()
